@@ -156,6 +156,44 @@ def strand_obs(eng, n=3, ins=()):
             Obs("table_proportion_moes", part.table_proportion_moes, C.to_array(moe))]
 
 
+def _nan_where(eng, P, V):
+    """wherever the proportion is undefined (NaN) so is the derived statistic"""
+    p, v = P.view(np.ndarray), V.view(np.ndarray)
+    out = np.empty(p.shape, dtype=object)
+    for idx in np.ndindex(p.shape):
+        if eng.symbolic:
+            pn, vn = Q.lift(p[idx]).isnan(), Q.lift(v[idx]).isnan()
+            if isinstance(pn, (bool, np.bool_)):
+                out[idx] = vn if pn else True
+            else:
+                out[idx] = (~pn) | vn
+        else:
+            out[idx] = bool((not np.isnan(p[idx])) or np.isnan(v[idx]))
+    return out
+
+
+def undefined_proportions(eng, kind="wave_difference"):
+    """cells whose proportion is undefined although their base is defined: a multi-term wave difference on a categorical-date
+    dimension (its column proportions are blanked), or a difference in a cube whose counts are weighted valid counts"""
+    if kind == "wave_difference":
+        rows = ("catdate", "a", 3, {"missing_at": (1,), "insertions": [D("r3-12", [3], [1, 2]), S("r12", [1, 2], anchor="top")]})
+        cols = ("cat", "b", 2, {"missing_at": (0,), "insertions": [S("c12", [1, 2])]})
+        w = CellWorld(eng, [rows, cols])
+    else:
+        rows = ("cat", "a", 3, {"missing_at": (1,), "insertions": [D("r1-3", [1], [3])]})
+        cols = ("cat", "b", 2, {"missing_at": (0,)})
+        w = CellWorld(eng, [rows, cols])
+        w.free_measure("mean", "x")
+        w.free_measure("valid_count_weighted", "vw", lo=0)
+    part = Cube(w.response()).partitions[0]
+    obs = []
+    for d in ("row", "column", "table"):
+        P = getattr(part, d + "_proportions")
+        for nm in (d + "_proportion_variances", d + "_std_dev", d + "_std_err", d + "_proportions_moe"):
+            obs.append(Obs("%s is NaN wherever the %s proportion is" % (nm, d), _nan_where(eng, P, getattr(part, nm)), kind="holds"))
+    return obs
+
+
 def mr_pair(eng, rows, cols, wire=False):
     """ordinary cells with multiple-response dimensions (respondent-level masses, or free wire cells): variance = p(1-p) over the cell's own base"""
     from .c02 import bases_matrix
@@ -212,6 +250,8 @@ def specs(tier):
     add("slice col difference + row subtotal", "slice_obs", dict(row_ins=[S("r13", [1, 3], anchor=1)], col_ins=[D("c12-3", [1, 2], [3])]))
     add("slice row difference x col difference", "slice_obs", dict(row_ins=[D("r2-1", [2], [1], anchor="top")], col_ins=[D("c3-1", [3], [1])]))
     add("slice overlapping subtotals", "slice_obs", dict(row_ins=[S("r12", [1, 2]), S("r23", [2, 3], anchor=2)]))
+    add("undefined proportions: multi-term wave difference", "undefined_proportions", dict(kind="wave_difference"))
+    add("undefined proportions: difference over weighted valid counts", "undefined_proportions", dict(kind="valid_counts"))
     add("strand plain", "strand_obs", dict())
     add("strand subtotal + difference", "strand_obs", dict(n=4, ins=[S("s12", [1, 2], anchor="top"), D("d", [3, 4], [1])]))
     add("mr strand", "mr_pair", dict(rows=V("mr", "a", 2), cols=None))
